@@ -540,6 +540,14 @@ func (g *gen) rateCase(millis int) Case {
 	qps := rig.Pick(g.r, []int32{50, 1000, 20000})
 	burst := rig.Pick(g.r, []int32{1, 10, 100, 1000})
 	b := burst
-	return Case{Kind: "rate", QPS: qps, Burst: burst, Workers: 1 + g.r.Intn(6), Millis: millis,
+	cs := Case{Kind: "rate", QPS: qps, Burst: burst, Workers: 1 + g.r.Intn(6), Millis: millis,
 		Asks: []int32{1, 3, b, 2*b + 1, 8 * b, 0, -1, 17, 16*b + 5, b / 2}}
+	if g.r.Intn(2) == 0 {
+		// many callers hammering the flow control itself: clock readings race for the bucket's lock
+		cs.Direct, cs.Workers, cs.QPS = true, 8, 20000
+		// (no negative asks here: DoAcquire refuses them before the flow control is reached, so TryAcquireN(-n) is
+		// not a situation of the real server)
+		cs.Asks = []int32{1, 2, 3, 1, 2, 0, b}
+	}
+	return cs
 }
